@@ -22,6 +22,26 @@ var purityExprs = []string{
 	"a = 1", "a = '1'", "a = *", "a != @a", "1 + count(*)", "count(a) mod 2", "a < 2", "-count(*)", "a and *", "a or following::a", "boolean(a = 1 or * = 1)",
 	"ancestor::a = ''", "following::a = following::*", "*[following::a = '1']", "count(ancestor::*) + count(preceding::*)", "//*[count(a) = 1]", "string-join(ancestor::*, '-')",
 	"(//a)[last()]", "//*[a][last()]", "*[position() = last()]/a", "a[last()]/@a",
+	// function arguments that carry iteration state of their own (parenthesised positional paths,
+	// multi-step paths with positional predicates) and patterns taken from the document
+	"string((//*)[2])", "number((//*)[1])", "boolean((*)[2])", "count((//*)[2])", "sum((//*)[1])", "string-length((//*)[2])", "normalize-space((*)[1])",
+	"concat((//*)[2], 'x')", "contains((//*)[2], '1')", "starts-with((*)[1], '1')", "ends-with((//*)[2], '1')", "substring((//*)[2], 1)",
+	"substring-before((//*)[2], 'x')", "substring-after((//*/*)[1], '1')", "translate((//*)[2], '1', 'x')", "lower-case((//*)[2])", "name((//*)[2])",
+	"local-name((*)[1])", "namespace-uri((//*)[2])", "not((//*)[2])", "floor((//*)[1])", "ceiling((*)[1])", "round((//*)[2])", "string-join((//*)[2], ',')",
+	"reverse((//*)[2])", "matches((//*)[2], '1')", "replace((//*)[2], '1', 'x')", "substring-before(//*/*[position() < 3], '1')", "string(//*/*[position() < 3])",
+	"name(*)", "local-name(//a)", "namespace-uri(*)", "//*[name(..) = 'a']", "//*[local-name(*) = 'a']", "//*[namespace-uri(..) = '']",
+	"matches('1', string(a))", "matches(., string(a))", "replace('1x1', a, 'y')", "//*[matches('1', string(.))]", "//*[matches(., '1')]/a", "//*[a][last()]/a", "//*[@a][last()]",
+	"//*[count(a) = 1][last()]", "(//*)[last()]/a", "*[last()][a]", "//a[last()][. = '1']", "*[@a][last()]", "a[. = '1'][last()]",
+	"floor(a * number(*))", "count(*) + floor(a * 2)", "string(a + 1)", "floor(a + *)", "//*[floor(a * number(@a)) = 1]", "ceiling(a div *)", "number(a - 1)",
+	"string-length(string(a + 1))", "boolean(a * 0)", "not(a + 1)", "concat(a + 1, 'x')", "round(a * *)", "sum(*) + floor(a)", "//*[ceiling(. + 1) = 2]",
+}
+
+// expressions whose history is also played on a second, independent document (state that
+// depends on the document, such as memoised counts, only shows across documents)
+var twoDocExprs = map[string]bool{
+	"//a": true, "*[last()]": true, "//*[last()]": true, "(//*)[2]": true, "(//a)[last()]": true, "//*[a][last()]": true, "*[@a][last()]": true,
+	"count(//a)": true, "a[last()]/@a": true, "//a[position() = last()]": true, "string((//*)[2])": true, "//*[count(a) = 1][last()]": true, "(//*)[last()]/a": true,
+	"a[. = '1'][last()]": true, "reverse(//a)": true, "string-join(//a, a)": true,
 }
 
 func init() {
@@ -62,9 +82,20 @@ func buildC04(tier string, seed int64) *Family {
 		if !strings.Contains(x, "@") {
 			c.A = 0
 		}
+		if strings.Contains(x, "position() <") || strings.Contains(x, "//*/*") {
+			c.N = 4
+		}
 		in := pureInst("H_pure", x, c)
 		in.Params["steps"] = steps
 		insts = append(insts, in)
+		// the same with the history played on a second, independent document
+		if twoDocExprs[x] {
+			in2 := pureInst("H_pure", x, c)
+			in2.Params["steps"] = steps
+			in2.Params["twodocs"] = "1"
+			in2.ID += " history-on-other-document"
+			insts = append(insts, in2)
+		}
 	}
 	var can []*vm.Instance
 	for _, x := range []string{"//a", "*[a]", "a = 1"} {
